@@ -50,6 +50,10 @@ check("C16", "model_checking", "S", "stateless model checking of the real instru
       "Every interleaving with <= 2 (thorough 3) preemptions of every RequestCache program (2-3 threads x 1-2 ops on colliding keys) and of the real override/relax ComputePatches on small universes (all channel delivery orders, callback points) is executed on the real code; each execution is checked for fetch-once, linearizability, deadlock, sortedness/dedup and schedule-independence of the patch list.",
       "Trusted: scheduling points at sync/channel/spawn operations, after release operations and at harness callbacks suffice; unsynchronised accesses are only seen by the separate free-running -race pass (not model checking; counted as race_runs). Resolve-client calls other than Versions are not scheduling points because the resolver's call order depends on Go map iteration. Outside: > 3 preemptions, > 4 threads, concurrent SetMap.", "DESIGN §5 C16, appendix A")
 
+check("C03", "exploration", "E", "bounded exhaustive enumeration of package lists x serialisation layouts per format, generators that never parse provide the ground truth",
+      "For each of the 14 format variants every ordered tuple of 0..2 (thorough 0..4) records from a corner-case pool is rendered in every combination of the layout dimensions (line endings, trailing newline, blank lines, comments, extra fields, field/section order, continuation lines, not-installed markers on every position) and the real extractor's output is compared with what the generator wrote.",
+      "Trusted: the write-only generators and the documented extractor quirks they encode (each cited). Outside: > 4 records, layouts outside the dimensions, CRLF for dpkg/apk databases.", "DESIGN §5 C03")
+
 ALL = ["C%02d" % i for i in range(1, 21)]
 for p in ALL:
     if p not in CHECKS:
